@@ -142,7 +142,7 @@ def render_strings(k, it: Item, meta, cfg, extra_derives=(), strum_path="strum")
     lines = ["pub fn oracle(e: &%s) -> Option<String> {" % ty, "    match e {"]
     for v in it.variants:
         lit = preferred_literal(it, v)
-        if lit is None or meta.get("no_oracle") or (not v.fields and v.kind != "named"):
+        if lit is None or meta.get("no_oracle") or v.kind == "unit":
             continue
         used = placeholders(lit)
         if not used:
@@ -160,6 +160,8 @@ def render_strings(k, it: Item, meta, cfg, extra_derives=(), strum_path="strum")
                 pattern(it, v, names), flit, ", ".join("%s = %s" % (n, n) for n in bound)))
         elif v.kind == "tuple":
             bs = ["b%d" % j for j in range(len(v.fields))]
+            if not all(u.isdigit() or u in SCOPE_NAMES for u in used):
+                continue
             lines.append("        %s => Some(xs(&format!(%s, %s)))," % (pattern(it, v, bs), flit, ", ".join(bs)))
     lines += ["        _ => None,", "    }", "}"]
     src.append("#[allow(unused_variables)]\n" + "\n".join(lines))
